@@ -127,7 +127,9 @@ def ho_msg(rng, size, select):
 
 
 def classify(octets, *args, **kw):
-    """what ndeflib does with the octets: 'ok' | 'err' (ndef.DecodeError) | 'other' (anything else)"""
+    """what ndeflib does with the octets: 'ok' | 'err' (ndef.DecodeError) | 'other' (anything else, in
+    practice UnicodeDecodeError, a ValueError; since 0af44aa the SNEP / handover code treats it like
+    DecodeError, and the model has one predicate "decodes" for both)"""
     try:
         return 'ok', list(ndef.message_decoder(octets, *args, **kw))
     except ndef.DecodeError:
@@ -553,9 +555,8 @@ def main():
         first, steps = sock.transcript()
         impl = fmt_local(first, steps, True) + '||' + res
         qs = ho_queries(script) if op[0] == 'ho' else []
-        line = 'client %d %s %s %s %s' % (miu, fmt_table([q for q in qs if strict_cls(q) == 'ok']),
-                                          fmt_table([q for q in qs if strict_cls(q) == 'other']), fmt_op(op),
-                                          ','.join(fmt_item(x) for x in script) or '.')
+        line = 'client %d %s %s %s' % (miu, fmt_table([q for q in qs if strict_cls(q) == 'ok']), fmt_op(op),
+                                       ','.join(fmt_item(x) for x in script) or '.')
         ck.count('script-client-' + kind)
         ck.case(('cl', op, miu, tuple(script)), len(first) + len(steps) > 1)
 
@@ -576,9 +577,8 @@ def main():
         # oracle table: every byte string the server may hand to the decoder on this script
         cands = snep_dec_candidates([x for x in script if x not in ('T', 'X')])
         cls = {c: default_cls(c) for c in cands}
-        line = 'snepsrv %d %d %s %s %s %s' % (miu, max_acc, fmt_table([c for c in cands if cls[c] == 'ok']),
-                                               fmt_table([c for c in cands if cls[c] == 'other']), fmt_answers(answers),
-                                               ','.join(fmt_item(x) for x in script) or '.')
+        line = 'snepsrv %d %d %s %s %s' % (miu, max_acc, fmt_table([c for c in cands if cls[c] == 'ok']), fmt_answers(answers),
+                                            ','.join(fmt_item(x) for x in script) or '.')
         ck.count('script-snepsrv-' + kind)
         ck.case(('ss', miu, max_acc, tuple(answers), tuple(script)), len(steps) > 1)
 
@@ -597,9 +597,8 @@ def main():
         first, steps = sock.transcript()
         impl = fmt_local(first, steps, False) + '||' + st + '||' + (','.join(log) or '.')
         qs = ho_queries(script)
-        line = 'hosrv %d 1 %s %s %s %s %s' % (miu, fmt_table([q for q in qs if strict_cls(q) == 'ok']),
-                                              fmt_table([q for q in qs if strict_cls(q) == 'other']),
-                                              fmt_table([q for q in qs if is_hr(q)]),
+        line = 'hosrv %d 1 %s %s %s %s' % (miu, fmt_table([q for q in qs if strict_cls(q) == 'ok']),
+                                           fmt_table([q for q in qs if is_hr(q)]),
                                               fmt_answers(answers), ','.join(fmt_item(x) for x in script) or '.')
         ck.count('script-hosrv-' + kind)
         ck.case(('hs', miu, tuple(answers), tuple(script)), len(steps) > 1)
@@ -700,9 +699,8 @@ def main():
         nf = 4 * nfrag + 8 * len(ops) + 40
         if kind == 'snep':
             cls = {o[1]: default_cls(o[1]) for o in ops}
-            line = 'snep %d %d %d %s %s %s %s %d' % (miu_cs, miu_sc, max_acc, fmt_table([c for c in cls if cls[c] == 'ok']),
-                                                      fmt_table([c for c in cls if cls[c] == 'other']), fmt_answers(answers),
-                                                      ','.join(fmt_op(o) for o in ops) or '.', nf)
+            line = 'snep %d %d %d %s %s %s %d' % (miu_cs, miu_sc, max_acc, fmt_table([c for c in cls if cls[c] == 'ok']),
+                                                   fmt_answers(answers), ','.join(fmt_op(o) for o in ops) or '.', nf)
         else:
             qs = set()
             for o in ops:
@@ -720,7 +718,7 @@ def main():
                 if strict_ok(m):
                     tab.add(m)
             tab.discard(b'')
-            line = 'ho %d %d 1 %s . %s %s %s %d' % (miu_cs, miu_sc, fmt_table(tab), fmt_table([q for q in qs if is_hr(q)]),
+            line = 'ho %d %d 1 %s %s %s %s %d' % (miu_cs, miu_sc, fmt_table(tab), fmt_table([q for q in qs if is_hr(q)]),
                                                   fmt_answers(answers), ','.join(fmt_op(o) for o in ops) or '.', nf)
 
         timed_out = any(e == ('recv', 'T') for e in cs.events + ss.events)
@@ -783,7 +781,7 @@ def main():
         return max(0, k * miu - rng.choice([0, hdr]) + rng.randrange(-7, 8))
 
     def prefix_free(m, mius):
-        """premise of handover_exact (every non-empty proper prefix is rejected with DecodeError), checked
+        """premise of handover_exact (no non-empty proper prefix is accepted by the strict decoder), checked
         with ndeflib on the fragment boundaries, and on every prefix for messages up to 300 octets"""
         ks = set()
         for mm in mius:
@@ -792,7 +790,7 @@ def main():
             ks.update(range(1, len(m)))
             ck.count('prefix-free-premise-checked-on-all-prefixes')
         for k in ks:
-            if strict_cls(m[:k]) != 'err':
+            if strict_cls(m[:k]) == 'ok':      # DecodeError and ValueError both mean "incomplete"
                 return False
         return True
 
@@ -988,13 +986,12 @@ def main():
             nf = 4 * sum(len(o[1]) // 100 + 4 for o in ops) + 8 * sum(len(a[1]) // 100 + 4 for a in answers if len(a) > 1 and isinstance(a[1], bytes)) + 60
             if kind == 'snep':
                 cls = {o[1]: default_cls(o[1]) for o in ops}
-                line = 'snep %d %d %d %s %s %s %s %d' % (obs['send_miu'], obs['recv_miu'], max_acc,
-                                                          fmt_table([c for c in cls if cls[c] == 'ok']),
-                                                          fmt_table([c for c in cls if cls[c] == 'other']),
-                                                          fmt_answers(answers), ','.join(fmt_op(o) for o in ops) or '.', nf)
+                line = 'snep %d %d %d %s %s %s %d' % (obs['send_miu'], obs['recv_miu'], max_acc,
+                                                       fmt_table([c for c in cls if cls[c] == 'ok']),
+                                                       fmt_answers(answers), ','.join(fmt_op(o) for o in ops) or '.', nf)
             else:
                 qs = set(o[1] for o in ops) | set(a[1] for a in answers if a[0] == 'h')
-                line = 'ho %d %d 1 %s . %s %s %s %d' % (obs['send_miu'], obs['recv_miu'], fmt_table([q for q in qs if strict_ok(q)]),
+                line = 'ho %d %d 1 %s %s %s %s %d' % (obs['send_miu'], obs['recv_miu'], fmt_table([q for q in qs if strict_ok(q)]),
                                                         fmt_table([q for q in qs if is_hr(q)]), fmt_answers(answers),
                                                         ','.join(fmt_op(o) for o in ops) or '.', nf)
 
